@@ -237,6 +237,24 @@ func runC05(c *core.Ctx) {
 	if i%50 == 7 {
 		steps = 3000
 	}
+	if i%600 == 31 || i%600 == 32 || i%600 == 33 || i%600 == 34 || i%600 == 35 {
+		// sizes and lap counts that small tests never reach: fill to thousands,
+		// drain half, refill, many wrap-arounds of a large ring
+		if m.Cap > 0 {
+			m = newRingMon[int](c, []int{257, 1000, 1024, 4096}[c.R.Intn(4)])
+		}
+		target := c.R.Range(2000, 6000)
+		for round := 0; round < 3; round++ {
+			for k := 0; k < target; k++ {
+				m.DoPut(next())
+			}
+			for k := 0; k < target/2; k++ {
+				m.DoTake()
+			}
+		}
+		c.Count("obs:big-fill-drain-cases", 1)
+		steps = 500
+	}
 	for s := 0; s < steps; s++ {
 		m.Step(next)
 	}
